@@ -357,8 +357,8 @@ func init() {
 		Cases: func(tier string, seed int64) []fw.Case {
 			l := mkCases(nil, "ops", 64, seed, pick(tier, 100, 10000))
 			l = mkCases(l, "concurrent", 8, seed, pick(tier, 40, 2000))
-			l = mkCases(l, "drawnstalemate", 8, seed, pick(tier, 30, 1500))
-			return mkCases(l, "deepwalk", 8, seed, pick(tier, 1, 6))
+			l = mkCases(l, "deepwalk", 8, seed, pick(tier, 1, 6))
+			return mkCases(l, "drawnstalemate", 8, seed, pick(tier, 30, 1500)) // (added last: the cases before keep their seeds)
 		},
 		Floors: func(string) map[string]int64 {
 			return map[string]int64{"drawn_then_stalemate_takebacks": 100, "drawn_then_stalemate_continuations": 500, "pops": 5000, "forks": 200, "pop_castle": 10, "pop_ep": 1, "pop_promotion": 10, "pop_capture": 500, "scratch_compares": 1000, "illegal_pushes": 200, "pop_at_root": 10, "deepwalk_pushes": 100000,
